@@ -401,10 +401,11 @@ func srcSide(r *mon.Run) {
 		}
 	}
 	type job struct {
-		f    *sfile
-		at   int
-		kind errKind
-		max  int
+		f        *sfile
+		at       int
+		kind     errKind
+		max      int
+		withData bool
 	}
 	var jobs []job
 	for i := range files {
@@ -455,7 +456,7 @@ func srcSide(r *mon.Run) {
 				if (o+ki)%4 == 1 {
 					max = 1 + (o % 7)
 				}
-				jobs = append(jobs, job{f: f, at: o, kind: k, max: max})
+				jobs = append(jobs, job{f: f, at: o, kind: k, max: max, withData: (o+ki)%2 == 0})
 			}
 		}
 	}
@@ -463,9 +464,9 @@ func srcSide(r *mon.Run) {
 	r.Set("src_fault_runs", len(jobs))
 	mon.Par(len(jobs), func(i int) {
 		j := jobs[i]
-		name := fmt.Sprintf("src %s fail@%d/%d kind=%s max=%d", j.f.name, j.at, len(j.f.file), j.kind.name, j.max)
+		name := fmt.Sprintf("src %s fail@%d/%d kind=%s max=%d err-with-data=%v", j.f.name, j.at, len(j.f.file), j.kind.name, j.max, j.withData)
 		r.Guard(name, func() {
-			fr := &mon.FaultReader{Data: j.f.file, FailAt: j.at, Err: j.kind.err, Max: j.max}
+			fr := &mon.FaultReader{Data: j.f.file, FailAt: j.at, Err: j.kind.err, Max: j.max, WithData: j.withData}
 			res := ax.Decrypt(fr, j.f.armored, 0, keys.P(j.f.party).Identity)
 			r.Eval(1)
 			if fr.Fired == 0 {
